@@ -10,6 +10,7 @@ THEOREMS = [
             "Lou.ModelEngine.model_fwd_lengths", "Lou.ModelEngine.model_back_lengths",
             "Lou.ModelEngine.callFwd_eq", "Lou.ModelEngine.callBack_eq", "Lou.ModelEngine.whole_call_fwd_lengths",
             "Lou.ModelEngine.engineFor_ok", "Lou.FwdCOK.translateC_contract",
+            "Lou.ModelEngine.engineForBack_ok", "Lou.ModelEngine.whole_call_back_lengths", "Lou.BackCOK.translateC_contract",
 ]
 
 CLAIM = dict(
